@@ -70,3 +70,14 @@ def reset(tier, tags):
 def execute(tier, tags):
     return job(tier, 'h_execute', tags, 'VM::execute() stops exactly where the first stop rule fires (shadow run of executeSingle with the rule as oracle); at HALT it changes nothing',
                ['Theo::VM::execute', 'Theo::VM::executeSingle'])
+
+
+def two_vms(tier, tags):
+    return job(tier, 'h_two_vms', tags, 'two machines: executeSingle/reset/setBreakPoint/clearBreakpoints/setSteppingMode on one leaves every field of the other unchanged',
+               ['Theo::VM::executeSingle', 'Theo::VM::reset', 'Theo::VM::setBreakPoint', 'Theo::VM::clearBreakpoints', 'Theo::VM::setSteppingMode'])
+
+
+def globals_vm(tier, tags):
+    j = job(tier, 'h_globals_vm', tags, 'Program::disassemble / getAvailableBreakpoints read the global opcode name table without modifying it', ['Theo::Program::disassemble', 'Theo::Program::getAvailableBreakpoints'])
+    j.native = False
+    return j
